@@ -78,4 +78,6 @@ def c02_mld0(w):
     if m is None or c is None:
         return False
     m, c = float(m), float(c)
+    if w.get("threshold_within_rounding_of_the_distance") and c == float("inf"):
+        return True
     return m == c or abs(m - c) <= 1e-12 * max(1.0, abs(m))
